@@ -113,9 +113,33 @@ def _run_requests(ctx, case, w):
         out_n = u['n']
         w.utxo_add(key.address, u['value'], txid, out_n, confirmations=u['conf'])
         model[(txid, out_n)] = {'value': u['value'], 'conf': u['conf'], 'address': key.address}
+    consumed = {}      # outpoints spent by transactions this wallet broadcast -> txid
     for rq_i, rq in enumerate(case['requests']):
         wu.reseed(case['rng'] + rq_i + 1)
-        _one_request(ctx, case, w, rq, model, recv, dust, netinfo)
+        if rq['op'] == 'utxos_update':
+            _do_update(ctx, case, w, model, consumed)
+            continue
+        _one_request(ctx, case, w, rq, model, recv, dust, netinfo, consumed)
+
+
+def _do_update(ctx, case, w, model, consumed):
+    """utxos_update(): the wallet re-reads its unspent set from the (offline) provider. The model follows the
+    wallet's listing, except that nothing a broadcast transaction consumed may come back."""
+    try:
+        w.utxos_update()
+        listing = w.utxos(min_confirms=0)
+    except Exception as e:
+        ctx.refusal('utxos_update.%s' % type(e).__name__)
+        return
+    ctx.klass('utxos_update')
+    model.clear()
+    for u in listing:
+        op = (u['txid'], u['output_n'])
+        if op in consumed:
+            raise Discrepancy('unspent.relisted_after_update', 'after utxos_update() the wallet lists %s:%d as unspent, '
+                              'it was consumed by broadcast transaction %s' % (op[0][:12], op[1], consumed[op][:12]),
+                              case)
+        model[op] = {'value': u['value'], 'conf': u['confirmations'], 'address': u['address']}
 
 
 def _amount(rq_amount, model, min_confirms, fee=None):
@@ -128,7 +152,9 @@ def _amount(rq_amount, model, min_confirms, fee=None):
     return max(0, int(base * rq_amount['num'] // rq_amount['den']) + rq_amount.get('plus', 0))
 
 
-def _one_request(ctx, case, w, rq, model, recv, dust, netinfo):
+def _one_request(ctx, case, w, rq, model, recv, dust, netinfo, consumed=None):
+    consumed = {} if consumed is None else consumed
+    broadcast = bool(rq.get('broadcast')) and case['wallet']['network'] == 'bitcoinlib_test'
     from ref import wire
     from ref import address as raddr
     wc = case['wallet']
@@ -158,20 +184,20 @@ def _one_request(ctx, case, w, rq, model, recv, dust, netinfo):
         elif op == 'send':
             t = w.send(outputs, fee=fee, min_confirms=min_conf, max_utxos=rq.get('max_utxos'),
                        number_of_change_outputs=rq.get('n_change', 1), replace_by_fee=rq.get('rbf', False),
-                       broadcast=False)
+                       broadcast=broadcast)
         elif op == 'send_to':
             t = w.send_to(outputs[0][0], outputs[0][1], fee=fee, min_confirms=min_conf,
                           number_of_change_outputs=rq.get('n_change', 1), replace_by_fee=rq.get('rbf', False),
-                          broadcast=False)
+                          broadcast=broadcast)
             wanted = wanted[:1]
         elif op == 'sweep':
             if rq.get('sweep_list') and len(outputs) >= 2:
                 to = [(a, v) for a, v in outputs[:-1]] + [(outputs[-1][0], 0)]
-                t = w.sweep(to, fee=fee, min_confirms=min_conf, max_utxos=rq.get('max_utxos') or 999, broadcast=False)
+                t = w.sweep(to, fee=fee, min_confirms=min_conf, max_utxos=rq.get('max_utxos') or 999, broadcast=broadcast)
                 wanted = wanted[:-1] + [{'addr': outputs[-1][0], 'spk': wanted[-1]['spk'], 'amount': None}]
             else:
                 t = w.sweep(outputs[0][0], fee=fee, min_confirms=min_conf, max_utxos=rq.get('max_utxos') or 999,
-                            broadcast=False)
+                            broadcast=broadcast)
                 wanted = [{'addr': outputs[0][0], 'spk': wanted[0]['spk'], 'amount': None}]
         else:
             raise AssertionError(op)
@@ -184,7 +210,23 @@ def _one_request(ctx, case, w, rq, model, recv, dust, netinfo):
             ctx.note('other_exception.' + name, repr(e)[:300])
         return
     ctx.klass('created.' + op)
+    for i in t.inputs:
+        outp = (i.prev_txid.hex(), i.output_n_int)
+        if outp in consumed:
+            raise Discrepancy('input.already_spent:' + op, 'input %s:%d was consumed by transaction %s which this wallet '
+                              'broadcast earlier [request %r]' % (outp[0][:12], outp[1], consumed[outp][:12], rq), case)
     _validate(ctx, case, rq, w, t, wanted, model, min_conf, dust, netinfo, stage=op)
+    if broadcast and getattr(t, 'pushed', False):
+        ctx.klass('broadcast')
+        own_addr = set(k.address for k in w.keys())
+        for i in t.inputs:
+            outp = (i.prev_txid.hex(), i.output_n_int)
+            consumed[outp] = t.txid
+            model.pop(outp, None)
+        for n, o in enumerate(t.outputs):
+            if o.address in own_addr:
+                model[(t.txid, n)] = {'value': o.value, 'conf': 0, 'address': o.address}
+        return
     if rq.get('bump') and rq.get('rbf'):
         b = rq['bump']
         try:
@@ -414,13 +456,16 @@ def _strategy(ctx):
             'min_confirms': st.sampled_from([1, 1, 0, 2]),
             'max_utxos': st.sampled_from([None, None, 1, 2]),
             'rbf': st.booleans(),
+            'broadcast': st.sampled_from([False, False, True]),
             'sweep_list': st.booleans(),
             'bump': st.one_of(st.none(), st.fixed_dictionaries({'mode': st.sampled_from(['fee', 'extra', 'default', 'rel', 'rel']),
                                                                 'num': st.sampled_from([1, 2, 3, 4, 5, 7]),
                                                                 'amount': st.sampled_from([1, 500, 5000, 10 ** 6])})),
         })
+        steps = st.one_of(rq, rq, rq, st.just({'op': 'utxos_update'})) if testnet else rq
         return {'kind': 'wallet', 'wallet': wallet, 'utxos': utxos,
-                'requests': draw(st.lists(rq, min_size=1, max_size=4)), 'rng': draw(st.integers(0, 2 ** 31))}
+                'requests': draw(st.lists(steps, min_size=1, max_size=ctx.scale(5, 7))),
+                'rng': draw(st.integers(0, 2 ** 31))}
     return cases()
 
 
